@@ -172,8 +172,10 @@ def check(case: dict[str, Any]) -> list[tuple[str, str]]:
 
 def shards(tier: str) -> list[dict[str, Any]]:
     if tier == "quick":
-        return [{"what": "gen", "n": 600} for _ in range(12)] + [{"what": "handlers", "seeds": list(range(i, 160, 4))} for i in range(4)]
+        return [{"what": "gen", "n": 600} for _ in range(12)] + [{"what": "handlers", "seeds": list(range(i, 160, 4))} for i in range(4)] + \
+            [{"what": "dtc", "seeds": list(range(i, 3200, 4))} for i in range(4)]
     return [{"what": "gen", "n": 4000} for _ in range(12)] + [{"what": "handlers", "seeds": list(range(i, 2000, 4))} for i in range(4)] + \
+        [{"what": "dtc", "seeds": list(range(i, 40000, 4))} for i in range(4)] + \
         [{"what": "atheris", "runs": 60000, "corpus": c} for c in ("empty", "valid")]
 
 
@@ -207,6 +209,19 @@ def handler_sweep(seed: int) -> dict[str, Any]:
     return {"seed": seed, "params": DENSE, "via": "direct", "ops": ops}
 
 
+def dtc_sweep(seed: int) -> dict[str, Any]:
+    """Per-model random state that only a few requests read (the DTC table and its availability mask, drawn once per model and
+    session): a light probe of the DTC services in every session one change away from the default, over many models."""
+    d = vecu.Driver(seed, DENSE, [])
+    model = d.model
+    d.close()
+    ops: list[tuple[Any, ...]] = []
+    for sess in [1] + [x for x in (model[1].get(0x10) or []) if x != 1][:3]:
+        ops += [("bytes", bytes([0x10, sess])), ("bytes", b"\x19\x02\xff"), ("bytes", b"\x19\x02\x01"), ("bytes", b"\x19\x0a"), ("bytes", b"\x19\x01\xff"),
+                ("bytes", b"\x14\xff\xff\xff"), ("bytes", b"\x19\x02\xff")]
+    return {"seed": seed, "params": DENSE, "via": "direct", "ops": ops}
+
+
 def run_shard(spec: dict[str, Any], seed: int) -> Collector:
     col = Collector()
     if spec["what"] == "atheris":
@@ -219,6 +234,11 @@ def run_shard(spec: dict[str, Any], seed: int) -> Collector:
         for b, m in run_case(case, col):
             col.violation(b, case, m)
 
+    if spec["what"] == "dtc":
+        for sd in spec["seeds"]:
+            body(dtc_sweep(sd + 1000 * (seed % 7)))
+        col.exhaustive_parts.append(f"{len(spec['seeds'])} dense models: the DTC services in the default session and up to three sessions next to it")
+        return col
     if spec["what"] == "handlers":
         for sd in spec["seeds"]:
             body(handler_sweep(sd))
